@@ -60,6 +60,14 @@ Print Assumptions never_panics_E2_asis_refuted.
 Example E2_quoted_passes : E2 Fixed [34; 65; 65; 34] = GPass /\ E2 AsIs [34; 65; 65; 34] = GPass.
 Proof. split; vm_compute; reflexivity. Qed.
 
+(* the transport helper one layer below (raw frames of the websocket / http transports) *)
+Theorem never_panics_E2_transport : forall (frame : list N) s, to_res (E2_transport Fixed frame) <> Panic s.
+Proof. intros b. exact (safe_no_panic _ (E2_transport_safe b)). Qed.
+Print Assumptions never_panics_E2_transport.
+Theorem never_panics_E2_transport_asis_refuted : E2_transport AsIs [34] = GPanic 21.
+Proof. vm_compute; reflexivity. Qed.
+Print Assumptions never_panics_E2_transport_asis_refuted.
+
 (* ---------- E3: legacy authcrypt / anoncrypt Unpack ---------- *)
 Theorem never_panics_E3 : forall (i : e3_in) s, to_res (E3 Fixed i) <> Panic s.
 Proof. intros i. exact (safe_no_panic _ (E3_safe i)). Qed.
